@@ -37,6 +37,7 @@ type Script struct {
 	CancelW string   `json:"cancelw"` // cancel | deadline
 	Cloner  string   `json:"cloner"`  // inproc: "" | codec | clonefunc | copyfunc
 	Calls   int      `json:"calls"`   // concurrent copies (free mode)
+	TrlBin  string   `json:"trlbin,omitempty"` // "raw": -bin trailer values are arbitrary bytes on every transport
 	ViaCtx  bool     `json:"viactx"`  // handler sets metadata through grpc.SetHeader(ctx,…)
 	Fault   string   `json:"fault"`   // "" | clone-fail:<n> | copy-fail:<n>
 	Gates   []string `json:"gates,omitempty"`
